@@ -1,8 +1,8 @@
 (* C06 -- the built-in Targets behave as a content map plus a reference -> descriptor map.
    Only statements closed by [exact]; the lemmas live in Proofs/Stores.v, the executable
    models (memory store, OCI layout store, abstract specification) in Model/Stores.v. *)
-From Oras Require Import Base.Prelude Generated.GC06 Model.Stores Model.StoresConc Model.StoresConcOci Model.StoresConcFile
-     Proofs.Stores Proofs.StoresConc Proofs.StoresConcOci Proofs.StoresConcOci2 Proofs.StoresConcFile Proofs.StoresFile Proofs.StoresConcFileGraph Proofs.StoresConcReads.
+From Oras Require Import Base.Prelude Generated.GC06 Model.Stores Model.StoresFileSpec Model.StoresConc Model.StoresConcOci Model.StoresConcFile
+     Proofs.Stores Proofs.StoresConc Proofs.StoresConcOci Proofs.StoresConcOci2 Proofs.StoresConcFile Proofs.StoresFile Proofs.StoresConcFileGraph Proofs.StoresConcReads Proofs.StoresFileSpec.
 From Coq Require Import Permutation.
 
 (* For every history, the memory store (cas.Memory + resolver.Memory + graph.Memory)
@@ -351,6 +351,27 @@ Example C06_ex_file_quiescent : fquiescent (fconf_run true false false (fconf_in
 Proof. exact fx_quiescent. Qed.
 
 (* ---- file store (names, duplicate-name, fallback CAS; options IgnoreNoName, DisableOverwrite) ---- *)
+
+(* Refinement: for EVERY history that does not use a second name for one path, the file store
+   (repaired pushFile, any IgnoreNoName / DisableOverwrite setting, restoreDuplicates with
+   titled successors included) returns step by step exactly what the abstract specification
+   Model/StoresFileSpec.v returns -- a set of names, one content map by digest for named
+   content, the fallback content map, the tag map and the graph -- and its
+   digestToPath -> path -> file indirection is that content map. *)
+Theorem C06_refines_file : forall (ig ov : bool) (h : list op),
+  Forall no_alias h ->
+  snd (runf (file_step true ig ov) file_init h) = snd (runf (fspec_step ig) fspec_init h) /\
+  frel (fst (runf (file_step true ig ov) file_init h)) (fst (runf (fspec_step ig) fspec_init h)).
+Proof. exact refines_file. Qed.
+Print Assumptions C06_refines_file.
+
+(* ... so DisableOverwrite cannot be observed on such histories *)
+Theorem C06_disable_overwrite_unobservable_file : forall (ig : bool) (h : list op),
+  Forall no_alias h ->
+  snd (runf (file_step true ig true) file_init h) = snd (runf (file_step true ig false) file_init h).
+Proof. exact file_disable_overwrite_unobservable. Qed.
+Print Assumptions C06_disable_overwrite_unobservable_file.
+
 
 (* whatever the options, in a history whose pushes do not use two names for one path
    ([no_alias]), a Fetch never returns bytes whose hash is not the requested digest
